@@ -455,8 +455,10 @@ def finish(out, level_note=''):
     ev = {'property_id': out.prop, 'tier': out.tier, 'seed': out.seed, 'level': 'proof', 'coverage': cov,
           'assumptions': out.assumptions, 'wall_s': round(time.time() - out.t0, 2),
           'violations': len(violations) + (1 if (rc == 1 and not violations) else 0)}
-    os.makedirs(os.path.join(VERIF, 'evidence'), exist_ok=True)
-    with open(os.path.join(VERIF, 'evidence', out.prop + '.json'), 'w') as f:
+    # evidence describes runs against /repo as it stands; the seed tools, which apply a change to /repo for the duration of one run, send it elsewhere
+    evdir = os.environ.get('VERIF_EVIDENCE_DIR') or os.path.join(VERIF, 'evidence')
+    os.makedirs(evdir, exist_ok=True)
+    with open(os.path.join(evdir, out.prop + '.json'), 'w') as f:
         json.dump(ev, f, indent=1, default=str)
     for l in lines:
         print(l)
